@@ -60,6 +60,9 @@ def run(ctx):
     # every integer operation at every pair of boundary operands (1872 tiny modules; all tiers)
     for lab, d in gen_mod.arith_boundary_modules(L, tab):
         cases.append((lab, d))
+    # values that contain themselves (array, hashmap as value / key / ring, struct), printed, compared, converted, dropped
+    for lab, d in gen_mod.cyclic_modules(L, tab):
+        cases.append((lab, d))
     # synthetic instruction soups
     nsyn = 400 if quick else 6000
     for k in range(nsyn):
